@@ -17,7 +17,7 @@ CLASSES = [SpatialVelocity, SpatialAcceleration, SpatialForce, SpatialMomentum]
 def FUNCS():
     return [SpatialVector.__init__, SpatialVector.__add__, SpatialVector.__sub__, SpatialVector.__neg__, SpatialVector.__rmul__,
             SpatialM6.cross, SpatialVelocity.__matmul__, SpatialInertia.__init__, SpatialInertia.__add__,
-            SpatialInertia.__mul__, SpatialInertia.__rmul__, SE3.Ad, base.adjoint]
+            SpatialInertia.__mul__, SE3.Ad, base.adjoint]
 
 
 for _cls in CLASSES:
@@ -166,6 +166,8 @@ def _(h):
     M = J * SpatialVelocity(a)
     h.is_type('I*v type', M, SpatialMomentum)
     h.eq('I*v', M.A, matmul(A, a.reshape(6, 1)).ravel())
+    # (the reversed spellings a * I, v * I of the library's __rmul__ docstring never work - UserList.__mul__ intercepts them -
+    # but the property speaks of inertia times acceleration / velocity only; noted in DESIGN 11.4, not claimed)
     h.raises('I*force', lambda: J * SpatialForce(a))
     h.raises('I*momentum', lambda: J * SpatialMomentum(a))
     h.raises('I + vector', lambda: J + SpatialVelocity(a))
